@@ -19,7 +19,13 @@
 static int isal_ok;
 
 /* ---------------- expected stripes (sequential oracle), built before threads start ---------------- */
-typedef struct { cfg_t c; uint64_t len; uint8_t *data; uint64_t flen; uint8_t **frag; char ck[96]; code_t cd; } exp_t;
+/* every configuration comes in NVAR variants with different content (and for some also different length), so that two
+ * threads working through one shared descriptor do not compute identical bytes: state that leaks from one call into
+ * another then shows as a wrong result, not only as a race report */
+#define NVAR 4
+typedef struct { cfg_t c; uint64_t len; uint8_t *data; uint64_t flen; uint8_t **frag; char ck[96]; code_t cd;
+                 uint32_t pq[8]; int npq;            /* flat-XOR hd=4: data triples no parity isolates (the P xor Q branch) */
+                 int nvar; uint64_t vlen[NVAR]; uint8_t *vdata[NVAR]; uint64_t vflen[NVAR]; uint8_t **vfrag[NVAR]; } exp_t;
 static exp_t EX[16]; static int nex;
 
 static void build_expectations(void)
@@ -29,6 +35,7 @@ static void build_expectations(void)
         { EC_BACKEND_FLAT_XOR_HD, 10, 5, 3, 0, CHKSUM_CRC32 }, { EC_BACKEND_FLAT_XOR_HD, 6, 6, 4, 0, CHKSUM_NONE },
         { EC_BACKEND_LIBERASURECODE_RS_VAND, 3, 3, 3, 0, CHKSUM_CRC32 }, { EC_BACKEND_NULL, 4, 2, 2, 0, CHKSUM_NONE },
         { EC_BACKEND_ISA_L_RS_VAND, 4, 2, 2, 0, CHKSUM_CRC32 }, { EC_BACKEND_ISA_L_RS_CAUCHY, 5, 3, 3, 0, CHKSUM_CRC32 },
+        { EC_BACKEND_FLAT_XOR_HD, 10, 5, 4, 0, CHKSUM_CRC32 },
     };
     rng_t r; rng_seed(&r, MO.seed, 0x18000);
     for (size_t i = 0; i < sizeof cf / sizeof cf[0]; i++) {
@@ -42,6 +49,25 @@ static void build_expectations(void)
         e->frag = calloc((size_t)n, sizeof(uint8_t *));
         for (int f = 0; f < n; f++) e->frag[f] = malloc(e->flen);
         model_stripe(&e->c, e->data, e->len, 0, e->frag);
+        /* variants: 0 = the stripe above; 1..: other content, every other one also another length */
+        e->nvar = NVAR;
+        for (int v = 0; v < NVAR; v++) {
+            if (v == 0) { e->vlen[0] = e->len; e->vdata[0] = e->data; e->vflen[0] = e->flen; e->vfrag[0] = e->frag; continue; }
+            e->vlen[v] = (v & 1) ? e->len : 2000 + rng_below(&r, 3000);
+            e->vdata[v] = malloc(e->vlen[v]); rng_fill(&r, e->vdata[v], e->vlen[v]);
+            e->vflen[v] = model_fragment_len(&e->c, e->vlen[v]);
+            e->vfrag[v] = calloc((size_t)n, sizeof(uint8_t *));
+            for (int f = 0; f < n; f++) e->vfrag[v][f] = malloc(e->vflen[v]);
+            model_stripe(&e->c, e->vdata[v], e->vlen[v], 0, e->vfrag[v]);
+        }
+        if (e->c.be == EC_BACKEND_FLAT_XOR_HD && e->c.hd == 4 && e->cd.xt) {
+            int k = e->c.k, m = e->c.m;
+            for (int a = 0; a < k && e->npq < 8; a++) for (int b2 = a + 1; b2 < k && e->npq < 8; b2++) for (int c2 = b2 + 1; c2 < k && e->npq < 8; c2++) {
+                uint32_t t3 = 1u << a | 1u << b2 | 1u << c2; int isolating = 0;
+                for (int p = 0; p < m; p++) if (__builtin_popcount(e->cd.xt->parity_bms[p] & t3) == 1) isolating = 1;
+                if (!isolating) e->pq[e->npq++] = t3;
+            }
+        }
     }
 }
 
@@ -78,8 +104,11 @@ typedef struct {
 
 static void note_bad(tres_t *t, const char *what) { if (!t->first_bad[0]) snprintf(t->first_bad, sizeof t->first_bad, "%s", what); }
 
-static void use_instance(tres_t *t, int desc, const exp_t *e, rng_t *r, int heavy)
+static void use_instance(tres_t *t, int desc, const exp_t *e0, rng_t *r, int heavy)
 {
+    /* this thread's own variant of the stripe (content, for some also length) */
+    exp_t ev = *e0; { int v = t->tid % e0->nvar; ev.len = e0->vlen[v]; ev.data = e0->vdata[v]; ev.flen = e0->vflen[v]; ev.frag = e0->vfrag[v]; }
+    const exp_t *e = &ev;
     int n = e->c.k + e->c.m, k = e->c.k;
     /* encode == reference stripe */
     char **ed = NULL, **ep = NULL; uint64_t fl = 0;
@@ -96,25 +125,45 @@ static void use_instance(tres_t *t, int desc, const exp_t *e, rng_t *r, int heav
         int sz = 1 + (int)rng_below(r, (uint32_t)tol);
         perm[0] = (int)rng_below(r, (uint32_t)k);
         uint32_t erased = mask_of(perm, sz);
+        if (e->npq && rng_below(r, 3) == 0) erased = e->pq[rng_below(r, (uint32_t)e->npq)];      /* the rarely taken P xor Q branch */
         uint32_t present = ((n == 32) ? 0xffffffffu : (1u << n) - 1) & ~erased;
         int req = e->c.be != EC_BACKEND_ISA_L_RS_VAND || code_firstk_invertible(&e->cd, present);
         char *lst[64]; int cnt = 0;
-        for (int i = 0; i < n; i++) if (!((erased >> i) & 1)) lst[cnt++] = i < k ? ed[i] : ep[i - k];
+        /* every other call reads the survivors from the variant's reference fragments, which other threads are reading at the
+         * same time (inputs are read-only to the library, so sharing them between threads is legitimate) */
+        int shared_inputs = (int)rng_below(r, 2);
+        for (int i = 0; i < n; i++) if (!((erased >> i) & 1)) lst[cnt++] = shared_inputs ? (char *)e->frag[i] : (i < k ? ed[i] : ep[i - k]);
         char *out = NULL; uint64_t ol = 0;
         rc = liberasurecode_decode(desc, lst, cnt, fl, (int)rng_below(r, 2), &out, &ol);
         t->ops++;
         if (rc == 0) { if (ol != e->len || memcmp(out, e->data, e->len)) { t->bad_decode++; note_bad(t, "decode returned wrong bytes"); } liberasurecode_decode_cleanup(desc, out); }
         else if (req) { t->bad_decode++; note_bad(t, "decode within tolerance failed"); }
         if (heavy) {
-            int dest = perm[0];
+            int dest = __builtin_ctz(erased);
+            if (rng_below(r, 2)) for (int i = n - 1; i >= 0; i--) if ((erased >> i) & 1) { dest = i; break; }
             uint8_t *o = malloc(fl);
             rc = liberasurecode_reconstruct_fragment(desc, lst, cnt, fl, dest, (char *)o);
             t->ops++;
             if (rc == 0) { if (memcmp(o, e->frag[dest], fl)) { t->bad_recon++; note_bad(t, "reconstruct returned wrong bytes"); } }
             else if (req) { t->bad_recon++; note_bad(t, "reconstruct within tolerance failed"); }
             free(o);
-            int R[2] = { dest, -1 }, X[1] = { -1 }, N[40];
+            /* the whole erased set as the list to rebuild (the planners' multi-element paths), answer checked for the basics */
+            int R[40], X[1] = { -1 }, N[40]; int nr = 0;
+            for (int i = 0; i < n; i++) if ((erased >> i) & 1) R[nr++] = i;
+            R[nr] = -1;
+            for (int i = 0; i < 40; i++) N[i] = -7;
             if (liberasurecode_fragments_needed(desc, R, X, N) != 0) { t->bad_query++; note_bad(t, "fragments_needed failed"); }
+            else { int endok = 0; for (int i = 0; i <= n && !endok; i++) { if (N[i] == -1) endok = 1; else if (N[i] < 0 || N[i] >= n || ((erased >> N[i]) & 1)) break; }
+                   if (!endok) { t->bad_query++; note_bad(t, "fragments_needed answered with a list that is unterminated, out of range or names a fragment to rebuild"); } }
+            /* a fragment as an opposite-endian host would have written it reads with the same meaning */
+            { uint8_t tw[80]; fragment_metadata_t ma, mb; uint8_t *tf = malloc(fl); memcpy(tf, lst[0], fl);
+              int lg = ref_get32((uint8_t *)lst[0] + REF_OFF_MCRC) == crc_legacy((uint8_t *)lst[0], 59) && ref_get32((uint8_t *)lst[0] + REF_OFF_MCRC) != crc_std((uint8_t *)lst[0], 59);
+              ref_hdr_twin((uint8_t *)lst[0], tw, lg); memcpy(tf, tw, 80);
+              int ra = liberasurecode_get_fragment_metadata(lst[0], &ma), rb = liberasurecode_get_fragment_metadata((char *)tf, &mb);
+              if (ra != 0 || rb != 0 || ma.idx != mb.idx || ma.size != mb.size || ma.orig_data_size != mb.orig_data_size || ma.backend_version != mb.backend_version || ma.chksum[0] != mb.chksum[0] || ma.chksum_mismatch != mb.chksum_mismatch
+                  || ma.idx != ref_get32((uint8_t *)lst[0] + REF_OFF_IDX) || ma.size != ref_get32((uint8_t *)lst[0] + REF_OFF_SIZE))
+                  { t->bad_query++; note_bad(t, "metadata of a fragment / of its opposite-endian twin wrong"); }
+              free(tf); t->ops += 2; }
             fragment_metadata_t md;
             if (liberasurecode_get_fragment_metadata(lst[0], &md) != 0 || is_invalid_fragment(desc, lst[0]) || liberasurecode_verify_stripe_metadata(desc, lst, cnt) != 0) { t->bad_query++; note_bad(t, "metadata/validation of a pristine fragment failed"); }
             if (liberasurecode_get_fragment_size(desc, (int)e->len) + 80 != (int)fl || liberasurecode_get_minimum_encode_size(desc) <= 0) { t->bad_query++; note_bad(t, "size query wrong"); }
